@@ -148,9 +148,39 @@ let show_outcome (o : outcome) : string =
 
 let big_nat (n : int) : nat = let r = ref O in for _ = 1 to n do r := S !r done; !r
 
+(* ---- family `site` (coq/Model/TailSites.v):  ID <TAB> site path=Q1/Q2/..
+   MODEL = J<k>: `jumps_run path ST` (= `jumps tail_sites path ST`, Proofs/TailSitesRunProofs.v), the number of goto 0 the generator emits according to the table
+           generated from generator.go;  SPEC = J<k>: `spec_jumps path ST`, from the property's list of
+           tail positions *)
+let pos_names = [
+  "PBodyNonLast", PBodyNonLast; "PBodyLast", PBodyLast; "PBeginNonLast", PBeginNonLast; "PBeginLast", PBeginLast;
+  "PAndNonLast", PAndNonLast; "PAndLast", PAndLast; "POrNonLast", POrNonLast; "POrLast", POrLast;
+  "PCondTest", PCondTest; "PCondArm", PCondArm; "PCondDefault", PCondDefault;
+  "PLetInit", PLetInit; "PLetBodyNonLast", PLetBodyNonLast; "PLetBodyLast", PLetBodyLast;
+  "PLetseqInit", PLetseqInit; "PLetseqBodyNonLast", PLetseqBodyNonLast; "PLetseqBodyLast", PLetseqBodyLast;
+  "PScopeNonLast", PScopeNonLast; "PScopeLast", PScopeLast; "PPkgNonLast", PPkgNonLast; "PPkgLast", PPkgLast;
+  "PDefRhs", PDefRhs; "PSetRhs", PSetRhs; "PMdefRhs", PMdefRhs; "PAssignRhs", PAssignRhs;
+  "PDefLhs", PDefLhs; "PSetLhs", PSetLhs; "PAssert", PAssert;
+  "PForInit", PForInit; "PForTest", PForTest; "PForStep", PForStep; "PForBodyNonLast", PForBodyNonLast; "PForBodyLast", PForBodyLast;
+  "PSqUnquote", PSqUnquote; "PSqUnquoteInList", PSqUnquoteInList; "PSqSpliceInList", PSqSpliceInList;
+  "PSqUnquoteInArray", PSqUnquoteInArray; "PArrayElem", PArrayElem; "PInfixNonLast", PInfixNonLast; "PInfixLast", PInfixLast;
+  "PCallArg", PCallArg; "PSelfArg", PSelfArg; "PFnBody", PFnBody; "PMacroExpansion", PMacroExpansion;
+  "PIncludeLastFile", PIncludeLastFile; "PIncludeNonLastFile", PIncludeNonLastFile ]
+
+let site_line (id : string) (body : string) : unit =
+  let p = String.sub body 10 (String.length body - 10) in
+  let p = (match String.index_opt p ' ' with Some i -> String.sub p 0 i | None -> p) in
+  let path = List.map (fun n -> try List.assoc n pos_names with Not_found -> failwith ("unknown position " ^ n))
+      (String.split_on_char '/' p) in
+  if List.length pos_names <> List.length all_pos then failwith "pos_names out of date";
+  let m = match jumps_run path ST with Some k -> Printf.sprintf "J%d" (int_of_nat k) | None -> "NOSITE" in
+  Printf.printf "%s\t%s\tJ%d\t-\t0\n%!" id m (int_of_nat (spec_jumps path ST))
+
 let () =
   iter_lines (fun line ->
     match split_tab line with
+    | id :: body :: _ when String.length body > 10 && String.sub body 0 10 = "site path=" ->
+      (try site_line id body with Failure m -> Printf.printf "%s\tBADINPUT:%s\t-\t-\t0\n%!" id m)
     | id :: body :: _ ->
       (try
         let fuel = ref 300 and rfuel = ref 0 and failat = ref 0 and noref = ref false in
